@@ -70,7 +70,7 @@ def gen_669(rng):
     nord = rng.randrange(0, 12)
     order = [rng.choice((0, max(0, nop - 1), nop, rng.randrange(0, nop + 1))) for _ in range(nord)]
     if rng.random() < 0.15 and order: order[rng.randrange(len(order))] = nop + 1
-    order = (order + [0xff] * 128)[:128]
+    order = [min(255, o) for o in (order + [0xff] * 128)[:128]]
     if rng.random() < 0.05: order[127] = rng.randrange(256)
     speed = [rng.randrange(1, 16) for _ in range(128)]
     pbrk = [rng.choice((0, 63, 31, 64, 255)) if rng.random() < 0.12 else rng.randrange(64) for _ in range(128)]
